@@ -5,6 +5,8 @@ from vf.harness import common as H
 from vf import families
 
 PROPERTY = "C01"
+# random 4..6-member definitions with several forking members can explode: cap them so that the budget reaches the other families
+SETTINGS_THOROUGH = {"case_budget": 45.0, "max_paths": 20000}
 BOUNDS = {"all": "(a) values obtained by parsing: all symbolic inputs of extent+slack bytes (<= 40); (b) values constructed directly: "
                  "one unconstrained integer in [-2^130, 2^130] per fixed-width integer/enum/pointer leaf (flag objects from [0, 2^130]: "
                  "enum.Flag itself folds a negative argument before the library sees the object), LEB128 |v| < 2^34, bit-field "
